@@ -19,7 +19,7 @@ if not hasattr(iso4217.load, 'cache_info'):
 PID = 'C08'
 PROPERTY_FILE = 'Properties/C08.v'
 # generated model parts (translate/) this property's model / proofs really depend on
-GEN_DEPS = ['IsoTable', 'QuantityImpl']
+GEN_DEPS = ['IsoTable', 'QuantityImpl', 'FractionImpl']
 MODEL_TARGETS = ['Corr/MoneyCorr.vo']
 PROOF_TARGETS = ['Proofs/C08Proofs.vo', 'Proofs/C02Undef.vo']
 COQ_HEADER = ("From QV Require Import Model.Num Model.Rounding Model.Quantity "
